@@ -388,7 +388,7 @@ def _r5_auth(ctx: Ctx) -> None:
             cons = f'{AU}::{q}::{pf.nsrc(p) if p is not None else pf.nsrc(n)}'
             okuse = isinstance(p, ast.Attribute) and p.value is n and p.attr in ('lookup', 'shutdown') and isinstance(par.get(p), ast.Call) \
                 and (p.attr != 'lookup' or isinstance(par.get(par[p]), ast.Await))
-            ctx.check(okuse, 'R5', cons, f'`{pf.nsrc(p) if p is not None else pf.nsrc(n)}` uses the cache other than through `await ….lookup(k)`: internal maps are '
+            ctx.check(okuse, 'R5', cons, f'`{pf.nsrc(p) if p is not None else pf.nsrc(n)}` uses the cache other than through `await ....lookup(k)`: internal maps are '
                       f'read/written without the expiry, capacity and single-flight logic', m.path, n.lineno)
 
 
